@@ -93,6 +93,7 @@ class CppBaseType(CppBaseCommentModel):
     config: CppConfig = Field(exclude=True, repr=False)
 
     @cached_property
+    @validate(keywords)
     def name(self):
         return self.decl.name.convert(self.config.identifier.type)
 
@@ -285,10 +286,12 @@ class CppRecord(CppBaseType):
         return "cpp" in self.decl.targets
 
     @cached_property
+    @validate(keywords)
     def derived_name(self) -> str:
         return Identifier(self.decl.name).convert(self.config.identifier.type)
 
     @cached_property
+    @validate(keywords)
     def name(self):
         if self.base_type:
             return Identifier(f"{self.decl.name}_base").convert(self.config.identifier.type)
